@@ -17,7 +17,7 @@ use neurons::tensor::Tensor;
 pub fn meta(ctx: &Ctx) -> Meta {
     let t = ctx.tier.thorough();
     Meta {
-        rule: format!("(a) single layers through their public backward(): {} of the lattice L for convolution, deconvolution, max-pool (linear activation; ring x E5), dense n,m in 1..4 x E5 x bias, input and upstream gradient given flat or as CxHxW: weight/kernel, bias and INPUT gradient vs the dual-number derivative of sum_k g_k*out_k. (a') a LARGE-VALUE ring (kernel 5,7; stride 3,4; padding 3; dilation 3; 4,8 channels; 8,16 filters; planes 12x13, 28x32) with <= 1 (thorough 2) deviations, HEAVY layers (3 channels, 8 filters, 24x30 plane: >= 64k multiply-adds; quick: the stride and dilation deviations of convolution and deconvolution, thorough: every single deviation of kernel / stride / padding / dilation per axis for all three kinds), wide dense layers (33, 65x64, 100, 241) alone and stacked; max-pool windows (7 kernel/stride settings) over pairwise distinct EXTREME finite values f32::MIN .. f32::MAX in every rotation, exact routing oracle. (b) networks: every layer sequence of <= {} tokens over 5 input shapes with <= {} deviations x 7 objectives (cycled), through Network::backward, through one learn() step with SGD (parameter change = -lr*gradient), and through Network::backward again on the trained network (all networks with a feedback block, a quarter of the others); soft-max head of width 2,3,5 under cross-entropy on every sequence of <= {} tokens, and soft-max OUTPUT LAYERS that are convolutions / deconvolutions: derivative of CE(softmax(z)); networks also built a second way, through placeholder activations and set_activation. Data re-drawn until every ReLU pre-activation and pool runner-up is >= 0.1 from a kink/tie. Non-trivial = case whose reference gradient has >= 2 distinct non-zero entries",
+        rule: format!("(a) single layers through their public backward(): {} of the lattice L for convolution, deconvolution, max-pool (linear activation; ring x E5), dense n,m in 1..4 x E5 x bias, input and upstream gradient given flat or as CxHxW, the ring of <= 1 deviation also on inputs with exact zeros: weight/kernel, bias and INPUT gradient vs the dual-number derivative of sum_k g_k*out_k. (a') a LARGE-VALUE ring (kernel 5,7; stride 3,4; padding 3; dilation 3; 4,8 channels; 8,16 filters; planes 12x13, 28x32) with <= 1 (thorough 2) deviations, HEAVY layers (3 channels, 8 filters, 24x30 plane: >= 64k multiply-adds; quick: the stride and dilation deviations of convolution and deconvolution, thorough: every single deviation of kernel / stride / padding / dilation per axis for all three kinds), wide dense layers (33, 65x64, 100, 241) alone and stacked; max-pool windows (7 kernel/stride settings) over pairwise distinct EXTREME finite values f32::MIN .. f32::MAX in every rotation, exact routing oracle. (b) networks: every layer sequence of <= {} tokens over 5 input shapes with <= {} deviations x 7 objectives (cycled), through Network::backward, through one learn() step with SGD (parameter change = -lr*gradient), and through Network::backward again on the trained network (all networks with a feedback block, a quarter of the others); soft-max head of width 2,3,5 under cross-entropy on every sequence of <= {} tokens, and soft-max OUTPUT LAYERS that are convolutions / deconvolutions: derivative of CE(softmax(z)); networks also built a second way, through placeholder activations and set_activation. Data re-drawn until every ReLU pre-activation and pool runner-up is >= 0.1 from a kink/tie. Non-trivial = case whose reference gradient has >= 2 distinct non-zero entries",
             if t { "the FULL lattice" } else { "the ring of <= 2 deviations" }, if t { 3 } else { 2 }, if t { 2 } else { 1 }, if t { 2 } else { 1 }),
         bound: "kernel <= 3, stride <= 2(3), padding <= 2, dilation <= 2, planes <= 6x7, depth <= 3 (+ soft-max head)".into(),
         exhaustive: true,
@@ -99,6 +99,23 @@ pub fn check_layer(net: &Net, flat_in: bool, flat_grad: bool, seed: u64, case: &
             return;
         }
     };
+    // "zeros": every third input element is EXACTLY 0 (a dead unit, a blank pixel): the input gradient there is as
+    // defined as anywhere else
+    let mut x = x;
+    if case.opt("zeros").is_some() {
+        for (i, v) in x.iter_mut().enumerate() {
+            if i % 3 == 1 {
+                *v = 0.0;
+            }
+        }
+        let x64: Vec<f64> = x.iter().map(|v| *v as f64).collect();
+        let tr = forward(net, &shapes, &to_f64(&params), &x64, false);
+        if tr.min_kink < 0.05 || tr.min_gap < 0.05 {
+            rep.count("skipped_no_kink_free_draw", 1);
+            return;
+        }
+        rep.count("cases_with_exactly_zero_inputs", 1);
+    }
     let lib = match build_with(net, &shapes, &params) {
         Ok(n) => n,
         Err(e) => {
@@ -562,6 +579,18 @@ pub fn cases(ctx: &Ctx) -> Vec<Kv> {
                 for act in [Act::Relu, Act::Leaky, Act::Sigmoid, Act::Tanh] {
                     out.push(Kv::new().put("kind", "layer").put("layer", kn).put("ix", ixs(&ix)).put("act", act.name()).put("flat_in", 0).put("flat_grad", 0));
                 }
+            }
+        }
+    }
+    // inputs with exact zeros (every third element) on the ring of <= 1 deviation, convolution and deconvolution
+    for (kind, kn) in [(Kind::Conv, "conv"), (Kind::Deconv, "deconv")] {
+        let doms = lattice_domains(kind);
+        for ix in deviations(&doms, 1) {
+            if lattice_point(kind, &ix, Act::Linear).is_none() {
+                continue;
+            }
+            for act in ["linear", "tanh", "relu"] {
+                out.push(Kv::new().put("kind", "layer").put("layer", kn).put("ix", ixs(&ix)).put("act", act).put("flat_in", 0).put("flat_grad", 0).put("zeros", 1));
             }
         }
     }
